@@ -174,6 +174,8 @@ type Task struct {
 	Suffix string
 	Keep   []string // if non-nil: only explicit obligations with these clause labels (split instances)
 	Drop   []string // explicit obligations with these labels are left to the split instances
+	ExhaustOnly  bool
+	PropOverride string // the unit is run for this property through a `property X for labels` clause
 }
 
 type textJob struct {
@@ -217,7 +219,7 @@ func expandJobs(cfg *SolverCfg, u *Unit) []*Oblig {
 		}
 	}
 	for _, o := range u.Obligs {
-		if len(u.Splits) > 0 && o.Kind != "vacuity" {
+		if len(u.Splits) > 0 && o.Kind != "vacuity" && o.Kind != "split-exhaustive" {
 			for i, sp := range u.Splits {
 				inst := *o
 				inst.Name = o.Name + u.SplitNm[i]
@@ -256,7 +258,7 @@ func (p *Program) runPipeline(cfg *SolverCfg, tasks []Task) ([]*Oblig, []*Unit) 
 			defer genWG.Done()
 			for ti := range taskCh {
 				t := tasks[ti]
-				u := p.verifyUnit(t.Ct, t.Subst, t.Suffix)
+				u := p.verifyUnit(t.Ct, t.Subst, t.Suffix, t.ExhaustOnly)
 				u.filter(t.Keep, t.Drop)
 				insts := expandJobs(cfg, u)
 				var tj []textJob
